@@ -102,6 +102,8 @@ def build():
         r is Ok && final(w).requests != old(w).requests ==> final(w).saved == Some(*final(self)), //@C11.account_file_holds_what_has_been_recorded
         final(endpoint).name == old(endpoint).name,
 """, rewrites=[("T-CMP", r"(?P<a>external_account_hash|ct_hash|key_hash) (?P<op>!=|==) (?P<b>acc_ep\.\w+)", vec_cmp, 3)])})
+    reg_sig = proto_sigs()["register_account"].replace("old(account)", "old(self)").replace("final(account)", "final(self)")
+    u.verify(A, "Account::register", "account", props=["C11"], fns={"register": FnSpec(ret="r", ghost=True, sig=reg_sig)})
     u.verify(A, "Account::update_keys", "account", props=["C11"], fns={"update_keys": FnSpec(ret="r", ghost=True, sig="""
     ensures
         // a change of key type or algorithm keeps the old key among the superseded ones (the CA still holds it), makes a
